@@ -110,6 +110,10 @@ bool OPNMIDIplay::LoadBank(FileAndMemReader &fr)
         }
     }
 
+    // Stop everything: sounding notes refer to instruments of the bank that gets replaced
+    // and to chip channels that get rebuilt below
+    realTime_panic();
+
     Synth &synth = *m_synth;
     synth.m_insBankSetup.volumeModel = wopn->volume_model;
     synth.m_insBankSetup.lfoEnable = (wopn->lfo_freq & 8) != 0;
